@@ -76,6 +76,13 @@ def _cases(tier):
             for pos in ("whole", "list", "dict"):
                 cases += [{"s": p + core + q, "pos": pos, "fmt": "black"} for p in BOUNDARY for q in BOUNDARY]
     cases += _quote_runs(tier)
+    # fix from one string to another that differs only in quote kinds / backslashes (the previous literal as a session would have left it)
+    qa = [x for x in _strings(["'", '"', "a", "\\"], 3) if x]
+    for old in qa:
+        for new in qa:
+            if old != new and (tier != "quick" or sorted(old.replace('"', "'")) == sorted(new.replace('"', "'")) or len(old) + len(new) <= 3):
+                cases.append({"s": new, "old": old, "pos": "fixfrom", "fmt": "black"})
+                cases.append({"s": new, "old": old, "pos": "fixfromlist", "fmt": "black" if tier == "quick" else "noblack"})
     b3 = []
     for k in range(0, 4):
         b3 += [b"".join(t) for t in itertools.product(BYTES, repeat=k)]
@@ -191,14 +198,20 @@ def _site(i, c):
         body = "assert snapshot()[%s] == %s" % (r, r)
     elif pos == "fix":
         body = "assert %s == snapshot('old' 'er')" % r
+    elif pos == "fixfrom":
+        body = "assert %s == snapshot(%r)" % (r, c["old"])
+    elif pos == "fixfromlist":
+        body = "assert [0, %s, 'z'] == snapshot([0, %r, 'z'])" % (r, c["old"])
     return "def test_%d():\n    %s\n" % (i, body)
 
 
 def _expected(c):
     v = _val(c)
     pos = c["pos"]
-    if pos in ("whole", "fix"):
+    if pos in ("whole", "fix", "fixfrom"):
         return v
+    if pos == "fixfromlist":
+        return [0, v, "z"]
     if pos == "list":
         return [0, v]
     if pos in ("dict", "sub"):
@@ -283,4 +296,4 @@ def run_case(case):
 def run_task(task):
     return batch.run_batched(task["cases"], _judge_factory(task["fmt"]),
                              label=lambda c: "ok:hist:" + c["hist"] if "hist" in c else "ok:%s:%s:%s" % (c["pos"], c["fmt"], "bytes" if "b" in c else "str"),
-                             key=lambda c: repr((c.get("s"), c.get("b"), c.get("pos"), c.get("fmt"), c.get("hist"))), strict_batch=True)
+                             key=lambda c: repr((c.get("s"), c.get("b"), c.get("pos"), c.get("fmt"), c.get("hist"), c.get("old"))), strict_batch=True)
